@@ -1,6 +1,8 @@
 package main
 
 import (
+	"os"
+	"regexp"
 	"fmt"
 	"go/types"
 	"strings"
@@ -286,6 +288,10 @@ func (x *Exec) callByContract(st *State, ins ssa.Instruction, full string, fc *F
 		x.emit(st, "requires", label+":"+lab, g, c.Src)
 		st.Assume(g)
 	}
+	if !extern && !fc.Pure && x.Fn.Name() != "init" {
+		// functions of this module assume the global invariants at entry ...
+		x.checkGlobalInvs(st, "at "+label)
+	}
 	if !fc.Pure {
 		x.emitSmoke(st, "before "+label)
 	}
@@ -339,6 +345,13 @@ func (x *Exec) callByContract(st *State, ins ssa.Instruction, full string, fc *F
 		st.Calls[lastName(short)] = simplifyPlus1(c)
 		st.CallLog = append(st.CallLog, CallRec{Name: lastName(short), Args: args, Rets: flatten(res)})
 	}
+	if !extern && !fc.Pure {
+		// ... and re-establish them at exit
+		for _, g := range x.changedGlobalInvs(st) {
+			x.D.giSet[g.term] = true
+			st.Assume(g.term)
+		}
+	}
 	post := &Env{x: x, st: st, old: pre, vars: env.vars, cf: cf, allocAtCall: preAlloc}
 	post = post.child()
 	bindResults(post, sig, res)
@@ -353,6 +366,107 @@ func (x *Exec) callByContract(st *State, ins ssa.Instruction, full string, fc *F
 		x.emitSmoke(st, "after "+label)
 	}
 	cont(st, res)
+}
+
+// changedGlobalInvs lists the global invariants assumed at entry whose footprint (the heap arrays the assumed term
+// mentions) has been written on this path other than at freshly allocated locations, with their value in st.
+// Writes at fresh locations cannot touch what an invariant reads: everything it reaches from the package-level
+// variables existed at entry.
+func (x *Exec) changedGlobalInvs(st *State) (out []struct {
+	c    *Clause
+	lab  string
+	term string
+}) {
+	for _, cf := range x.P.Files {
+		for ci := range cf.GlobalInv {
+			c := &cf.GlobalInv[ci]
+			g0, ok := x.giInit[c]
+			if !ok {
+				continue
+			}
+			changed := false
+			for _, name := range heapNamesIn(g0) {
+				cur, ok := st.Heap[name]
+				if !ok {
+					continue
+				}
+				if stripFreshStores(cur) != name+"@0" {
+					changed = true
+					if os.Getenv("GOVC_DEBUG_GI") != "" {
+						fmt.Fprintf(os.Stderr, "GI %s: %s changed in %s: %.200s\n", c.Label, name, x.short, cur)
+					}
+					break
+				}
+			}
+			if !changed {
+				continue
+			}
+			genv := &Env{x: x, st: st, old: st, vars: map[string]Value{}, cf: cf}
+			g1 := x.evalBool(genv, c.E, *c)
+			if g1 == g0 {
+				continue
+			}
+			lab := c.Label
+			if lab == "" {
+				lab = fmt.Sprintf("%d", ci)
+			}
+			out = append(out, struct {
+				c    *Clause
+				lab  string
+				term string
+			}{c, lab, g1})
+		}
+	}
+	return out
+}
+
+func (x *Exec) checkGlobalInvs(st *State, where string) {
+	for _, g := range x.changedGlobalInvs(st) {
+		x.emit(st, "global-invariant", where+":"+g.lab, g.term, g.c.Src)
+	}
+}
+
+var heapNameRe = regexp.MustCompile(`([A-Z]+\.[^ ()]+)@0`)
+
+// heapNamesIn lists the heap arrays (by name) whose entry-state constant occurs in term t.
+func heapNamesIn(t string) []string {
+	seen := map[string]bool{}
+	var out []string
+	for _, m := range heapNameRe.FindAllStringSubmatch(t, -1) {
+		if !seen[m[1]] {
+			seen[m[1]] = true
+			out = append(out, m[1])
+		}
+	}
+	return out
+}
+
+// stripFreshStores peels (store a i v) layers whose index is a freshly allocated reference (or an element/field
+// reference into one) off an array term.
+func stripFreshStores(a string) string {
+	for strings.HasPrefix(a, "(store ") {
+		parts := splitSexp(a[1 : len(a)-1])
+		if len(parts) != 4 {
+			break
+		}
+		idx := parts[2]
+		fresh := false
+		if _, _, ok := freshRef(idx); ok {
+			fresh = true
+		} else if strings.HasPrefix(idx, "(elemref ") || strings.HasPrefix(idx, "(fieldref.") {
+			ip := splitSexp(idx[1 : len(idx)-1])
+			if len(ip) >= 2 {
+				if _, _, ok := freshRef(ip[1]); ok {
+					fresh = true
+				}
+			}
+		}
+		if !fresh {
+			break
+		}
+		a = parts[1]
+	}
+	return a
 }
 
 func simplifyPlus1(c string) string {
@@ -652,6 +766,10 @@ func (x *Exec) checkPost(st *State, ins *ssa.Return, results []Value) {
 				x.emit(st, "global-invariant", lab, x.evalBool(genv, c.E, c), c.Src)
 			}
 		}
+	}
+	// every other function re-establishes the global invariants whose footprint it has written
+	if x.Fn.Name() != "init" {
+		x.checkGlobalInvs(st, "preserved")
 	}
 	if x.FC == nil {
 		return
@@ -981,6 +1099,23 @@ func (x *Exec) modTargets(env *Env, ms string) []modTarget {
 	}
 	env.clause = c
 	switch {
+	case strings.HasPrefix(ms, "global "):
+		// a package-level variable of the contract's package: its cell
+		name := strings.TrimSpace(strings.TrimPrefix(ms, "global "))
+		path := ""
+		if env.cf != nil {
+			path = env.cf.PkgPath
+		}
+		sp := x.P.SPkgs[path]
+		if sp == nil {
+			env.errf("modifies global: unknown package %q", path)
+		}
+		g, ok := sp.Members[name].(*ssa.Global)
+		if !ok {
+			env.errf("modifies global: no package-level variable %s", name)
+		}
+		el := g.Type().(*types.Pointer).Elem()
+		return []modTarget{{kind: "cell", ref: x.asTerm(x.globalPtr(g)), arr: x.TM.CellArray(x.TM.Key(el)), desc: ms, vsort: x.TM.Sort(el)}}
 	case strings.HasSuffix(ms, "[*]"):
 		e, err := ParseExpr(strings.TrimSuffix(ms, "[*]"))
 		if err != nil {
